@@ -64,7 +64,9 @@ def main():
             if m['kind'] == 'mutant':
                 hit = r.returncode == 1 and 'VIOLATION property=%s' % m['check'] in out and \
                     (not m.get('expect') or any(('[%s]' % m['expect']) in l for l in out.splitlines()))
-                print('%-7s %-6s %-50s %s' % ('caught' if hit else 'MISSED', m['check'], m['name'], '' if hit else '(exit %d)' % r.returncode))
+                import re as _re
+                rules = sorted(set(_re.findall(r': \[([A-Za-z0-9.]+)\]', out)))
+                print('%-7s %-6s %-50s %s' % ('caught' if hit else 'MISSED', m['check'], m['name'], ('[%s]' % ','.join(rules)) if hit else '(exit %d)' % r.returncode))
                 if not hit:
                     fails += 1
                     print('\n'.join(out.splitlines()[-6:]))
